@@ -295,6 +295,12 @@ def vmstack(run, vm):
             guard = _const_of(v)
         if v['q'] == 'graphite2::vm::Machine::STACK_MAX':
             stack_max = _const_of(v)
+    for e_ in fx.raw['enums'].values():            # the same constants declared as enumerators (their type is then int: the ENDOP test below notices)
+        for c_ in e_.get('consts', []):
+            if c_.get('q', '').endswith('vm::Machine::STACK_GUARD') and guard is None:
+                guard = c_.get('v')
+            if c_.get('q', '').endswith('vm::Machine::STACK_MAX') and stack_max is None:
+                stack_max = c_.get('v')
     if guard is None or stack_max is None:
         raise AnalysisBroken('Machine::STACK_GUARD / STACK_MAX constants not found')
     rec = fx.record('graphite2::vm::Machine')
